@@ -45,6 +45,8 @@ def make(cls, seed):
     else:
         o = eqsig.Signal(v, DT, smooth_fa_freqs=SF[0].copy())
     o._mc_obs = {'v': frozenset(), 'sf': frozenset(), 'rt': frozenset()}
+    o._mc_skip = frozenset()
+    o._mc_n0 = len(v)
     return o
 
 
@@ -72,6 +74,15 @@ def _other(n):
     return eqsig.Signal(np.cos(np.arange(n) * 0.9), DT)
 
 
+def _resized(o):
+    """a record of a different length, in a different power-of-two bucket (toggles between n and 2n+5)"""
+    v = np.asarray(o.values, dtype=float)
+    n0 = getattr(o, '_mc_n0', len(v))
+    if len(v) == n0:
+        return np.concatenate([v * 0.5 + 0.2, v[::-1], np.linspace(-1, 1, 5)])
+    return v[:n0][::-1] * 1.25 - 0.1
+
+
 def _toggle(cur, menu):
     return menu[1].copy() if len(cur) == len(menu[0]) else menu[0].copy()
 
@@ -92,6 +103,7 @@ def build_ops(cls):
         add('regen:generate_displacement_and_velocity_series', 'read', lambda o: o.generate_displacement_and_velocity_series(), 'dv')
     # mutators (fixed, effective arguments)
     add('mut:reset_values', 'mut', lambda o: o.reset_values(np.array(o.values, dtype=float)[::-1] * 1.5 + 0.1))
+    add('mut:reset_values(other length)', 'mut', lambda o: o.reset_values(_resized(o)))
     add('mut:add_constant', 'mut', lambda o: o.add_constant(0.7))
     add('mut:add_series', 'mut', lambda o: o.add_series(np.linspace(-1, 1, o.npts) ** 2))
     add('mut:add_signal', 'mut', lambda o: o.add_signal(_other(o.npts)))
@@ -105,7 +117,13 @@ def build_ops(cls):
         add('mut:rebase_displacement', 'mut', lambda o: o.rebase_displacement())
         add('mut:correct_me', 'mut', lambda o: o.correct_me())
         add('mut:set_zero_residual_velocity', 'mut', lambda o: o.set_zero_residual_velocity())
+        add('mut:set_zero_residual_velocity(timezone)', 'mut', lambda o: o.set_zero_residual_velocity(timezone=(0.05, 0.2)))
+        add('mut:set_zero_residual_velocity(timezone to end)', 'mut', lambda o: o.set_zero_residual_velocity(timezone=(0.05, None)))
         add('mut:set_zero_residual_displacement', 'mut', lambda o: o.set_zero_residual_displacement())
+        add('mut:set_zero_residual_displacement_and_velocity(timezone)', 'mut',
+            lambda o: o.set_zero_residual_displacement_and_velocity(timezone=(0.05, 0.2)))
+        add('mut:set_zero_residual_displacement_and_velocity(timezone to end)', 'mut',
+            lambda o: o.set_zero_residual_displacement_and_velocity(timezone=(0.05, None)))
         add('mut:set_zero_residual_displacement_and_velocity', 'mut', lambda o: o.set_zero_residual_displacement_and_velocity())
     # settings (each toggles between two menu values)
     add('set:smooth_fa_freqs', 'sf', lambda o: setattr(o, 'smooth_fa_freqs', _toggle(o.smooth_fa_freqs, SF)))
@@ -119,28 +137,54 @@ def build_ops(cls):
         add('set:response_times', 'rt', lambda o: setattr(o, 'response_times', _toggle(o.response_times, RT)))
         add('set:gen_response_spectrum(times)', 'rt', lambda o: o.gen_response_spectrum(response_times=_toggle(o.response_times, RT)))
         add('set:response_series(times)', 'rt', lambda o: o.response_series(response_times=_toggle(o.response_times, RT)))
+    # explicit generator calls with non-default arguments install a user-chosen variant of one derived family: until the next
+    # operation that must invalidate that family no fresh object can report it, so the invariant skips exactly that family
+    # (o._mc_skip) - and checks it again as soon as a mutator / the relevant settings change has to have thrown the variant away
+    add('custom:gen_fa_spectrum(p2_plus=1)', 'custom', lambda o: o.gen_fa_spectrum(p2_plus=1), ('fa', 'smooth'))
+    add('custom:gen_smooth_fa_spectrum(band=20)', 'custom', lambda o: o.gen_smooth_fa_spectrum(band=20), ('smooth',))
+    if cls == 'AccSignal':
+        add('custom:gen_response_spectrum(xi=0.2)', 'custom', lambda o: o.gen_response_spectrum(xi=0.2), ('resp',))
+        add('custom:generate_displacement_and_velocity_series(trap=False)', 'custom',
+            lambda o: o.generate_displacement_and_velocity_series(trap=False), ('dv', 'pgv', 'pgd'))
     # observational bookkeeping wrapper
     wrapped = collections.OrderedDict()
     for name, fn in ops.items():
         def w(o, name=name, fn=fn):
             k, fam = kind[name]
             obs = dict(getattr(o, '_mc_obs', {'v': frozenset(), 'sf': frozenset(), 'rt': frozenset()}))
+            skip = set(getattr(o, '_mc_skip', ()))
+            before = np.array(o.values, dtype=float) if k == 'mut' else None
+            failed = True
             try:
                 fn(o)
+                failed = False
             finally:
-                if k == 'mut':
+                if k == 'mut' and failed and np.array_equal(before, np.asarray(o.values, dtype=float)):
+                    pass        # the mutator raised before touching the record: nothing had to be invalidated
+                elif k == 'mut':
                     obs = {'v': frozenset(), 'sf': frozenset(), 'rt': frozenset()}
+                    skip = set()
+                elif k == 'custom':
+                    skip |= set(fam)
+                    obs = {kk: vv | frozenset(fam) for kk, vv in obs.items()}
                 elif k == 'sf':
+                    if 'fa' not in skip:
+                        skip.discard('smooth')
                     obs['sf'] = frozenset()
                     if name.startswith('set:gen_smooth'):
                         obs['sf'] = frozenset(['smooth'])
                 elif k == 'rt':
+                    skip.discard('resp')
                     obs['rt'] = frozenset()
                     if name.startswith('set:gen_response'):
                         obs['rt'] = frozenset(['resp'])
                 elif fam is not None:
                     obs = {kk: vv | frozenset([fam]) for kk, vv in obs.items()}
+                    if name.startswith('regen:'):   # an argument-free regenerator re-installs the default variant of its own family
+                        if fam != 'smooth' or 'fa' not in skip:      # (a smoothed spectrum of a custom spectrum is still custom)
+                            skip.discard(fam)
                 o._mc_obs = obs
+                o._mc_skip = frozenset(skip)
         wrapped[name] = w
     return wrapped, kind
 
@@ -176,7 +220,7 @@ def abstract_key(o):
     else:
         obs = getattr(o, '_mc_obs', {})
         ctl = ('obs', tuple(sorted((k, tuple(sorted(v))) for k, v in obs.items())))
-    return (cls, ctl, coarse_settings(o), str(np.asarray(o.values).dtype.kind))
+    return (cls, ctl, coarse_settings(o), str(np.asarray(o.values).dtype.kind), tuple(sorted(getattr(o, '_mc_skip', ()))))
 
 
 _FRESH = {}
@@ -208,7 +252,10 @@ def invariant_factory(cls, r, ctx):
 
     def invariant(obj, hist):
         probs = []
+        skip = getattr(obj, '_mc_skip', ())
         for group in groups:
+            if FAMILY.get(group[0], group[0]) in skip:
+                continue
             c = copy.deepcopy(obj)      # one private copy per family of reads that share a cache
             wants = fresh_reads(obj, group)
             for rname, (okw, want) in zip(group, wants):
@@ -248,11 +295,17 @@ def rebuild(cls, sd, hist):
     return o, ops, kind
 
 
+def closure_ops(ops):
+    """closure mode explores the default alphabet; the custom-variant generators (which multiply the control state by the
+    set of families currently holding a user-chosen variant) are explored in exact mode only"""
+    return collections.OrderedDict((n, f) for n, f in ops.items() if not n.startswith('custom:'))
+
+
 def _expand_keys(arg):
     cls, sd, hist = arg
     o, ops, kind = rebuild(cls, sd, hist)
     out = []
-    for name, op in ops.items():
+    for name, op in closure_ops(ops).items():
         c, exc = osm.apply(op, o)
         out.append((name, abstract_key(c)))
     return out
@@ -350,7 +403,7 @@ def run_case(case):
         reads = READS_A if cls == 'AccSignal' else READS_S
         for name, op in ops.items():
             k, fam = kind[name]
-            if k == 'read':
+            if k in ('read', 'custom'):
                 continue
             new, exc = osm.apply(op, init)
             r.transitions += 1
@@ -392,7 +445,7 @@ def run_case(case):
             r.disabled['closure state already violating - not expanded'] += 1
             return r
         viol = []
-        for name, op in ops.items():
+        for name, op in closure_ops(ops).items():
             c, exc = osm.apply(op, o)
             r.transitions += 1
             r.evals += 1
@@ -406,7 +459,7 @@ def run_case(case):
         def allow(hist, name):
             if len(hist) < 2 or not case.get('triples_only'):
                 return True
-            return kind[hist[0]][0] == 'read' and kind[hist[1]][0] != 'read' and kind[name][0] == 'read'
+            return kind[hist[0]][0] in ('read', 'custom') and kind[hist[1]][0] not in ('read', 'custom') and kind[name][0] == 'read'
         out = osm.exact(init, ops, depth, inv, first=first, allow=allow, on_transition=on_transition)
         r.states += out['states']
         r.transitions += out['transitions']
